@@ -28,6 +28,12 @@ Theorem C05_finalizer_once_after_last : forall k s, finalizing k s = s ++ [EEff 
 Proof. exact finalizer_once_after_last. Qed.
 Print Assumptions C05_finalizer_once_after_last.
 
+(* ... and not at all when the run fails while rows are still flowing: the callback is not among the things that happen *)
+Theorem C05_finalizer_silent_when_run_fails : forall kf a k x b,
+  no_fail a -> drive (finalizing kf (a ++ EFail k x :: b)) = (a, Raised k x).
+Proof. exact finalizer_silent_on_failure. Qed.
+Print Assumptions C05_finalizer_silent_when_run_fails.
+
 (* the commit of an observer happens once, at the end, when nothing fails *)
 Theorem C05_commit_at_end : forall kc s,
   no_fail s -> drive (committing kc s) = (lmap (g_observe kc) s ++ [EEff kc 4], Returned).
